@@ -122,6 +122,10 @@ func checkC07(c *Ctx) {
 	c.checkSysAndSelfNames()
 	c.checkSelfGrantShapes()
 	c.checkMaskAfterParse()
+	// after a transfer the previous owner has no O in store or cache (only the owner can grant ownership)
+	c.checkOwnerTransfer()
+	c.checkLoaderReadsLiveRows("C07.2e-loader-reads-live-subscriptions")
+	c.checkFndDefaultAccessNone()
 }
 
 func (c *Ctx) pairCall(v ssa.Value) bool {
